@@ -360,6 +360,10 @@ func ParseData(data []byte) (Config, error) {
 		velocity = 64
 	}
 
+	if cfg.Defaults.Channel < 1 || cfg.Defaults.Channel > 16 {
+		return Config{}, fmt.Errorf("default channel \"%d\" not in 1-16 range", cfg.Defaults.Channel)
+	}
+
 	convertToColor := func(v int) openrgb.Color {
 		return openrgb.Color{
 			Red:   byte(v >> 16),
